@@ -134,6 +134,13 @@ def _case(draw, ctx):
         ko = draw(st.integers(1, max(1, min(len(out0), len(out1)))))
         for a, b in zip(out1[:ko], out0[:ko]):
             mp[a] = b
+        if draw(st.integers(0, 2)) == 0:
+            # a name that is an input in one circuit and an internal gate in the other: it is a
+            # startpoint of one circuit only, hence neither shared nor tied by default
+            free_in0 = [n for n in in0 if n not in mp.values()]
+            gates1 = [x[0] for x in c1["nodes"] if x[1] in S.ALL_GATES and not x[3] and x[0] not in mp]
+            if free_in0 and gates1:
+                mp[draw(st.sampled_from(gates1))] = draw(st.sampled_from(free_in0))
         for x in c1["nodes"]:
             x[0] = mp.get(x[0], x[0])
             x[2] = [mp.get(f, f) for f in x[2]]
